@@ -9,5 +9,8 @@ fn lookup(prop: &str) -> Option<Box<dyn Engine>> {
 }
 
 fn main() {
+    if std::env::args().nth(1).as_deref() == Some("c20-thread-probe") {
+        std::process::exit(vlib::c05::c20_thread_probe());
+    }
     cli_main(&lookup)
 }
